@@ -444,6 +444,216 @@ theorem bitflip_detected_interest_digest (R : ReaderSpecs) (R2 : ReaderSpecs2) (
       rw [hd, hdP, List.drop_left, ← hlenP, ← hP'l, List.take_length] at k5
       exact k5.symm
 
+/-! ### the covered name components (signed Interests) -/
+
+/-- a successful name-component loop ends exactly at `en`; the reported start of the last
+    ParametersSha256Digest component is the initial value or a component start inside the field -/
+theorem nameLoop_pos_ti (R : ReaderSpecs) : ∀ (fuel : Nat) (r r' : Rd) (buf : Bytes) (p en : Nat) (acc n : Name) (s s' : Nat),
+    At r buf p → nameLoop fuel r en acc s = .ok (n, s', r') → At r' buf en ∧ (s' = s ∨ (p ≤ s' ∧ s' < en)) := by
+  intro fuel
+  induction fuel with
+  | zero =>
+    intro r r' buf p en acc n s s' h e
+    simp only [nameLoop, R.pos_eq r buf p h] at e
+    split at e
+    · cases e
+    · rename_i hpe
+      obtain ⟨_, rfl, rfl⟩ : acc = n ∧ s = s' ∧ r = r' := by simpa using e
+      have : p = en := by omega
+      subst this
+      exact ⟨h, Or.inl rfl⟩
+  | succ fuel ih =>
+    intro r r' buf p en acc n s s' h e
+    simp only [nameLoop, R.pos_eq r buf p h] at e
+    split at e
+    · split at e
+      · cases e
+      · rename_i hpe
+        obtain ⟨_, rfl, rfl⟩ : acc = n ∧ s = s' ∧ r = r' := by simpa using e
+        have : p = en := by omega
+        subst this
+        exact ⟨h, Or.inl rfl⟩
+    · rename_i hlt
+      obtain ⟨⟨t, r1⟩, e1, e2⟩ := bind_ok_inv e
+      obtain ⟨k1, _, _, _, a1, _⟩ := readTL_gen R r r1 buf p t h e1
+      simp only [] at e2
+      obtain ⟨⟨l, r2⟩, e3, e4⟩ := bind_ok_inv e2
+      obtain ⟨k2, _, _, _, a2, _⟩ := readTL_gen R r1 r2 buf _ l a1 e3
+      simp only [] at e4
+      split at e4
+      · cases e4
+      · obtain ⟨⟨v, r3⟩, e5, e6⟩ := bind_ok_inv e4
+        obtain ⟨_, _, a3⟩ := readBuf_gen R r2 r3 buf _ l v a2 e5
+        simp only [] at e6
+        obtain ⟨a4, hs⟩ := ih r3 r' buf _ en _ n _ s' a3 e6
+        refine ⟨a4, ?_⟩
+        split at hs
+        · rcases hs with hs | hs
+          · exact Or.inr ⟨by omega, by omega⟩
+          · exact Or.inr ⟨by omega, hs.2⟩
+        · rcases hs with hs | hs
+          · exact Or.inl hs
+          · exact Or.inr ⟨by omega, hs.2⟩
+
+/-- an Interest value that starts with a Name header (type 7, length `L`): a successful parse decoded
+    the Name element first; the name part of the signed range is `V[p2, sigEnd)` with `sigEnd` inside
+    the Name value, and the loop continues after the Name element with `progress` at slot 3 -/
+theorem name_first_ti (R : ReaderSpecs) (V rest : Bytes) (L : Nat) (hL : L < 2 ^ 62)
+    (hV : V = encTL 7 ++ (encTL L ++ rest)) (r0 : Rd) (h0 : At r0 V 0) (s : InterestSt)
+    (hp : parseInterest {} r0 = .ok s) :
+    ∃ (n' : Name) (sigEnd : Nat) (r3 : Rd), At r3 V (tlLen 7 + tlLen L + L)
+      ∧ tlLen 7 + tlLen L ≤ sigEnd ∧ sigEnd ≤ tlLen 7 + tlLen L + L
+      ∧ Reach V 0 (({} : InterestSt), 0) r0 (tlLen 7 + tlLen L + L)
+          (({ v := { name := some n' },
+              sigCovered := [] ++ (V.drop (tlLen 7 + tlLen L)).take (sigEnd - (tlLen 7 + tlLen L)) } : InterestSt), 3) r3 := by
+  have hb : V.drop 0 = encTL 7 ++ (encTL L ++ rest) := by rw [hV]; rfl
+  obtain ⟨r2, a2, l2, d2, hle2, e2⟩ := tlvLoop_step_int R interestBody (({} : InterestSt), 0) r0 V 0 7 L rest h0 hb (by omega) hL
+  have hp' : (tlvLoop interestBody (loopFuel r0) (({} : InterestSt), 0) r0 >>=
+      fun x => pure (ordFinish interestAbsent x.2 (15 - x.1.2) x.1.2 x.1.1)) = .ok s := hp
+  obtain ⟨⟨⟨s1, q1⟩, r1⟩, e1, _⟩ := bind_ok_inv hp'
+  have hfuel : loopFuel r0 = V.length + 1 := by
+    simp [loopFuel, R.pos_eq r0 _ 0 h0, R.length_eq r0 _ 0 h0]
+  have hbody := interestBody_hit 7 L 0 2 0 ({} : InterestSt) r2 (by decide) (by omega) (by omega)
+  rw [hfuel, e2 V.length, hbody, Res.bind_assoc_int] at e1
+  obtain ⟨⟨st1, r3⟩, eh, _⟩ := bind_ok_inv e1
+  rw [absFold_head _ _ _ _ _ (by omega)] at eh
+  have eh0 := eh
+  simp only [interestHandle, ↓reduceIte, R.pos_eq r2 _ _ a2] at eh
+  obtain ⟨⟨n', sigEnd, r3'⟩, en, e3⟩ := bind_ok_inv eh
+  simp only [readNameField] at en
+  obtain ⟨_, _, enl⟩ := bind_ok_inv en
+  simp only [R.pos_eq r2 _ _ a2] at enl
+  obtain ⟨a3, hs⟩ := nameLoop_pos_ti R _ r2 r3' V _ _ [] n' _ sigEnd a2 enl
+  simp at e3
+  obtain ⟨rfl, rfl⟩ := e3
+  rw [Nat.zero_add] at a3 hs a2
+  have hse : tlLen 7 + tlLen L ≤ sigEnd ∧ sigEnd ≤ tlLen 7 + tlLen L + L := by
+    rcases hs with hs | hs <;> omega
+  refine ⟨n', sigEnd, r3', a3, hse.1, hse.2, ?_⟩
+  rw [← R.range_eq r3' V _ _ _ a3 hse.1 (by have := a3.2.2; omega)]
+  intro fuel hf
+  cases fuel with
+  | zero => omega
+  | succ f =>
+    refine ⟨f, by have := tlLen_pos 7; omega, ?_⟩
+    rw [e2 f, hbody, Res.bind_assoc_int, absFold_head _ _ _ _ _ (by omega), eh0]
+    rfl
+
+/-- the head elements after the Name (CanBePrefix … HopLimit) of a built Interest, decoded on any
+    buffer that carries those bytes after a Name element that decoded to some name `n'` -/
+theorem head_rest_reach_ti (R : ReaderSpecs) (E : EncSpecs) (i : InterestIn) (fn : Name) (sv : Bytes)
+    (hr : InterestReady i fn sv) (buf rest : Bytes) (r0 r1 : Rd) (p1 : Nat) (n' : Name) (X : Bytes)
+    (a1 : At r1 buf p1)
+    (d1 : buf.drop p1 = boolField 33 i.cbp ++ (boolField 18 i.mbf
+      ++ (optB i.fh (fun ns => encTL 30 ++ encTL (linksLen ns) ++ encLinks ns)
+      ++ (optB i.nonce encNonce ++ (optB i.lt (encNatField 12) ++ (optB i.hl encHopLimit ++ rest))))))
+    (R1 : Reach buf 0 (({} : InterestSt), 0) r0 p1 (({ v := { name := some n' }, sigCovered := X } : InterestSt), 3) r1) :
+    ∃ r7 q7 p7 v7, q7 ≤ 9 ∧ At r7 buf p7 ∧ buf.drop p7 = rest ∧ v7.ap = none ∧ v7.si = none ∧ v7.sv = none
+      ∧ Reach buf 0 (({} : InterestSt), 0) r0 p7 (({ v := v7, sigCovered := X } : InterestSt), q7) r7 := by
+  obtain ⟨r2, q2, hq2, a2, d2, R2⟩ := el_cbp R i.cbp
+    ({ v := { name := some n' }, sigCovered := X } : InterestSt) (q := 3) a1 d1 (by omega) rfl
+  obtain ⟨r3, q3, hq3, a3, d3, R3⟩ := el_mbf R i.mbf
+    ({ v := { name := some n', cbp := i.cbp }, sigCovered := X } : InterestSt) a2 d2 hq2 rfl
+  obtain ⟨r4, q4, hq4, a4, d4, R4⟩ := el_fh R E i.fh
+    ({ v := { name := some n', cbp := i.cbp, mbf := i.mbf }, sigCovered := X } : InterestSt) rfl a3 d3
+    hr.fhValid hr.fhLen hq3 rfl
+  obtain ⟨r5, q5, hq5, a5, d5, R5⟩ := el_nonce R i.nonce
+    ({ v := { name := some n', cbp := i.cbp, mbf := i.mbf, fh := i.fh }, sigCovered := X } : InterestSt) a4 d4
+    hr.nonce hq4 rfl
+  obtain ⟨r6, q6, hq6, a6, d6, R6⟩ := el_lt R i.lt
+    ({ v := { name := some n', cbp := i.cbp, mbf := i.mbf, fh := i.fh, nonce := i.nonce }, sigCovered := X } : InterestSt)
+    a5 d5 hr.lt hq5 rfl
+  obtain ⟨r7, q7, hq7, a7, d7, R7⟩ := el_hl R i.hl
+    ({ v := { name := some n', cbp := i.cbp, mbf := i.mbf, fh := i.fh, nonce := i.nonce, lt := i.lt },
+       sigCovered := X } : InterestSt) a6 d6 hr.hl hq6 rfl
+  exact ⟨r7, q7, _, _, hq7, a7, d7, rfl, rfl, rfl, R1.trans (R2.trans (R3.trans (R4.trans (R5.trans (R6.trans R7)))))⟩
+
+/-- Tamper detection for the name of a SIGNED Interest: `b'` has the length of the built Interest and
+    agrees with it everywhere except at byte `k`, which lies in the name components covered by the
+    signature (the bytes of `encNameInner (stripDigest i.name)` inside the Name element).  Then for every
+    healthy reader over `b'`: decoding fails, or the signed portion reported by the decoder differs from
+    the bytes handed to the signer — a validator that accepts exactly the original
+    (signed portion, signature value) pair rejects.  (The parameters digest does not cover the name;
+    this is the signature's job.) -/
+theorem bitflip_detected_interest_name (R : ReaderSpecs) (E : EncSpecs) (S : SigInfoParseSpec)
+    (i : InterestIn) (sign H : Bytes → Bytes) (e : Encoded) (fn : Name)
+    (hv : i.Valid) (hH : ∀ x, (H x).length = 32) (hm : makeInterest i sign H = .ok (e, fn)) (hest : i.est > 0)
+    (b' : Bytes) (k : Nat) (hlen : b'.length = e.wire.flatten.length)
+    (hk : b'.getD k 0 ≠ e.wire.flatten.getD k 0) (hsame : ∀ j, j ≠ k → b'.getD j 0 = e.wire.flatten.getD j 0)
+    (hreg : 1 + tlLen (interestValue i fn e.sigVal).length + 1 + tlLen (nameLen fn) ≤ k
+      ∧ k < 1 + tlLen (interestValue i fn e.sigVal).length + 1 + tlLen (nameLen fn)
+            + (encNameInner (stripDigest i.name)).length)
+    (r : Rd) (hr : At r b' 0) (p : InterestP) (cov : Bytes) :
+    readInterest H r = .ok (p, cov) → ¬ (cov = interestCovered i ∧ p.sv = some e.sigVal) := by
+  intro hrd
+  obtain ⟨hfn, hfl, _, _⟩ := E.makeInterest_flatten i sign H e fn hv hH hm
+  obtain ⟨hrdy, hL⟩ := interestReady_of_int E i sign H e fn hv hH hm
+  have hap : i.ap.isSome := hrdy.est hest
+  obtain ⟨P, hP⟩ : ∃ P, P = interestParamsPortion i e.sigVal := ⟨_, rfl⟩
+  obtain ⟨M, hM⟩ : ∃ M, M = encNameInner (stripDigest i.name) := ⟨_, rfl⟩
+  obtain ⟨D, hD⟩ : ∃ D, D = encNameInner [digestComp (H P)] := ⟨_, rfl⟩
+  obtain ⟨HR, hHR⟩ : ∃ HR, HR = boolField 33 i.cbp ++ (boolField 18 i.mbf
+      ++ (optB i.fh (fun ns => encTL 30 ++ encTL (linksLen ns) ++ encLinks ns)
+      ++ (optB i.nonce encNonce ++ (optB i.lt (encNatField 12) ++ (optB i.hl encHopLimit ++ P))))) := ⟨_, rfl⟩
+  obtain ⟨L, hLdef⟩ : ∃ L, L = nameLen fn := ⟨_, rfl⟩
+  have hfn' : fn = stripDigest i.name ++ [digestComp (H P)] := by
+    rw [hfn, hP]; unfold interestFinalName; rw [if_pos hap]
+  have hinner : encNameInner fn = M ++ D := by rw [hfn', hM, hD, encNameInner_append_int]
+  have hLlen : L = M.length + D.length := by
+    rw [hLdef, ← E.nameLen_eq, hinner, List.length_append]
+  have hVeq : interestValue i fn e.sigVal = encTL 7 ++ (encTL L ++ (M ++ (D ++ HR))) := by
+    rw [hHR, hP, hLdef]
+    simp only [interestValue, interestHead, encNameField, hinner, List.append_assoc]
+  obtain ⟨V, hVdef⟩ : ∃ V, V = interestValue i fn e.sigVal := ⟨_, rfl⟩
+  rw [← hVdef] at hfl hL hreg hVeq
+  rw [← hLdef, ← hM] at hreg
+  have h5 : tlLen 5 = 1 := by decide
+  have h7 : tlLen 7 = 1 := by decide
+  have heq : e.wire.flatten = (encTL 5 ++ encTL V.length ++ encTL 7 ++ encTL L) ++ M ++ (D ++ HR) := by
+    rw [hfl]; conv => lhs; rhs; rw [hVeq]
+    simp only [List.append_assoc]
+  have hAl : (encTL 5 ++ encTL V.length ++ encTL 7 ++ encTL L).length = 1 + tlLen V.length + 1 + tlLen L := by
+    simp only [List.length_append, encTL_length, h5, h7]
+  obtain ⟨hk1, hk2⟩ := hreg
+  rw [heq] at hlen hk hsame
+  obtain ⟨M', hb', hM'l, hM'ne⟩ := splice_mid _ _ _ b' k hlen hk hsame (by rw [hAl]; exact hk1) (by rw [hAl]; exact hk2)
+  obtain ⟨V', hV'def⟩ : ∃ V', V' = encTL 7 ++ (encTL L ++ (M' ++ (D ++ HR))) := ⟨_, rfl⟩
+  have hV'len : V'.length = V.length := by
+    rw [hV'def, hVeq]; simp only [List.length_append, hM'l]
+  have hb2 : b' = encTL 5 ++ encTL V'.length ++ V' := by
+    rw [hV'len, hb', hV'def]; simp only [List.append_assoc]
+  rw [hb2] at hr
+  obtain ⟨sub, s, as, hp, _, hx⟩ := readInterest_single_ti R H r V' (by omega) hr (p, cov) hrd
+  obtain ⟨rfl, rfl⟩ : p = s.v ∧ cov = s.sigCovered := by simpa using hx
+  -- the Name element of the altered value
+  have hLlt : L < 2 ^ 62 := by rw [hLdef]; exact hrdy.nameLen
+  obtain ⟨n', sigEnd, r3, a3, hse1, hse2, R1⟩ := name_first_ti R V' _ L hLlt hV'def sub as s hp
+  have hp2 : V'.drop (tlLen 7 + tlLen L) = M' ++ (D ++ HR) := by
+    rw [hV'def, ← List.append_assoc]
+    exact List.drop_left' (by simp only [List.length_append, encTL_length])
+  have hd1 : V'.drop (tlLen 7 + tlLen L + L) = HR := by
+    rw [← List.drop_drop, hp2, ← List.append_assoc]
+    exact List.drop_left' (by simp only [List.length_append]; omega)
+  rw [hHR] at hd1
+  -- the rest is decoded as in the original
+  obtain ⟨r7, q7, p7, v7, hq7, a7, d7, hv1, hv2, hv3, RH⟩ := head_rest_reach_ti R E i fn e.sigVal hrdy V' P sub r3 _ n' _ a3 hd1 R1
+  rw [hP] at d7
+  obtain ⟨fs, efs, _, _, hcov⟩ := tail_at R E S i fn e.sigVal hrdy as a7 d7 hq7 RH hv1 hv2 hv3
+  rw [hp] at efs
+  obtain rfl : s = fs := by simpa using efs
+  rintro ⟨hc, _⟩
+  rw [hcov hest] at hc
+  unfold interestCovered at hc
+  rw [← hM] at hc
+  simp only [List.append_assoc, List.nil_append] at hc
+  have hX := List.append_cancel_right hc
+  have hXl := congrArg List.length hX
+  simp only [List.length_take, List.length_drop] at hXl
+  have hVl : tlLen 7 + tlLen L + L ≤ V'.length := a3.2.2
+  have hsz : sigEnd - (tlLen 7 + tlLen L) = M'.length := by omega
+  rw [hsz, hp2, List.take_left' rfl] at hX
+  exact hM'ne hX
+
 /-! ### the theorems for every healthy reader (BufferReader, or WireReader over any segmentation) -/
 
 theorem parseInterest_digest_all (r : Rd) (V : Bytes) (s : InterestSt) :
@@ -460,5 +670,37 @@ theorem bitflip_detected_interest_digest_all (E : EncSpecs)
     (hreg : e.wire.flatten.length - (interestParamsPortion i e.sigVal).length ≤ k ∧ k < e.wire.flatten.length)
     (r : Rd) (hr : At r b' 0) : ∀ x, readInterest H r ≠ .ok x :=
   bitflip_detected_interest_digest readerSpecs readerSpecs2 E i sign H e fn hv hH hm hap hinj b' k hlen hk hsame hreg r hr
+
+theorem bitflip_detected_interest_name_all (E : EncSpecs)
+    (i : InterestIn) (sign H : Bytes → Bytes) (e : Encoded) (fn : Name)
+    (hv : i.Valid) (hH : ∀ x, (H x).length = 32) (hm : makeInterest i sign H = .ok (e, fn)) (hest : i.est > 0)
+    (b' : Bytes) (k : Nat) (hlen : b'.length = e.wire.flatten.length)
+    (hk : b'.getD k 0 ≠ e.wire.flatten.getD k 0) (hsame : ∀ j, j ≠ k → b'.getD j 0 = e.wire.flatten.getD j 0)
+    (hreg : 1 + tlLen (interestValue i fn e.sigVal).length + 1 + tlLen (nameLen fn) ≤ k
+      ∧ k < 1 + tlLen (interestValue i fn e.sigVal).length + 1 + tlLen (nameLen fn)
+            + (encNameInner (stripDigest i.name)).length)
+    (r : Rd) (hr : At r b' 0) (p : InterestP) (cov : Bytes) :
+    readInterest H r = .ok (p, cov) → ¬ (cov = interestCovered i ∧ p.sv = some e.sigVal) :=
+  bitflip_detected_interest_name readerSpecs E (parseSigInfo_at readerSpecs E) i sign H e fn hv hH hm hest
+    b' k hlen hk hsame hreg r hr p cov
+
+/-! ### notes: what the all-input invariant does NOT give (concrete inputs, evaluated on the model)
+
+  The digest-covered range is `V[digestCoverStart, digestCoverStart + n)`, not necessarily the suffix that
+  starts at the ApplicationParameters element:
+
+  * an unknown non-critical element that arrives when `progress` stands at slot 14 (i.e. after
+    ApplicationParameters and two further elements, known or unknown) advances `progress` WITHOUT the
+    slot-14 action, and `ordFinish` has nothing left to do: `digestCovered` stays empty, so
+    `checkInterest` compares the digest component with `H []`.  Interest value
+    `07 25 | 08 01 61 | 02 20 SHA256("") || 24 03 01 02 03 || 26 00 || 26 00 || 26 00`
+    (Name /a/params-sha256=e3b0c442…, ApplicationParameters 010203, three unknown elements of type 38)
+    is ACCEPTED by `readInterest Sha.sha256` although the digest does not cover the parameters; so is
+    `… || 24 03 09 09 09 || 2c 03 1b 01 00 || 2e 02 07 07 || 26 00` (signed, one trailing unknown element).
+    The same value without the trailing unknown elements is rejected.
+  * a known element after `progress` has passed slot 13 ends the range at the start of that element.
+
+  Neither affects `bitflip_detected_interest_digest`: the hash of whatever range is compared would have
+  to collide with the original digest input (`hinj`). -/
 
 end Ndn.C12
